@@ -71,6 +71,36 @@ func sizeValueSet(r *rt.Rand, nSeeded int, visit func(s uint64)) {
 	for d := uint64(0); d <= 3; d++ {
 		visit(^uint64(0) - d)
 	}
+	// decimal structure: digit groups of 3, 4, 6, 8 and 9 that are all zeros, all nines or one off, under every
+	// head that fits (chunk-wise digit writers and reciprocal-multiplication divisions go wrong only there),
+	// as byte counts and as shortened values of every unit
+	for _, cw := range []int{3, 4, 6, 8, 9} {
+		chunk := uint64(1)
+		for i := 0; i < cw; i++ {
+			chunk *= 10
+		}
+		maxHead := ^uint64(0) / chunk
+		heads := []uint64{1, 2, 5, 9, 10, 12, 15, 18, 99, 100, 999, 1000, 12345, 999999, 1000000, 999999999, 1000000000, 4294967295, 4294967296, 12271930590, 14999999999, 15999999999, 18446744072,
+			maxHead, maxHead - 1, maxHead / 2, maxHead/3*2 + 1, r.U64() % (maxHead + 1), r.U64() % (maxHead + 1), maxHead - r.U64()%(maxHead/4+1), maxHead - r.U64()%(maxHead/4+1)}
+		for _, h := range heads {
+			if h > maxHead {
+				continue
+			}
+			for _, low := range []uint64{0, 1, chunk - 1, chunk - 2, chunk / 2, chunk / 10, chunk/10 - 1} {
+				hi, v := mul64(h, chunk)
+				if hi != 0 || v+low < v {
+					continue
+				}
+				v += low
+				visit(v)
+				for k := 10; k <= 60; k += 10 {
+					if hi, lo := mul64(v, uint64(1)<<uint(k)); hi == 0 {
+						visit(lo)
+					}
+				}
+			}
+		}
+	}
 	for i := 0; i < nSeeded; i++ {
 		switch i % 4 {
 		case 0:
